@@ -465,6 +465,11 @@ class InterpCore:
                 return self._ev_subscript(e, obj, fr)
             except PyRaise as pr:
                 if issubclass(pr.exc.cls, (IndexError, KeyError, TypeError)):
+                    # a partial operation inside a clause: the clause does not hold there.  When
+                    # this happens while *proving* it usually means the clause is mis-written
+                    # (it would be vacuously satisfied), so it is reported as a contract error.
+                    self.bottoms = getattr(self, "bottoms", 0) + 1
+                    self.bottom_where = f"{ast.unparse(e)} ({pr})"
                     return BOTTOM
                 raise
         return self._ev_subscript(e, obj, fr)
